@@ -381,7 +381,7 @@ func genWriterCase(t *rapid.T) WriterCase {
 func TestC05_Random(t *testing.T) {
 	rec := evid.New("C05", "c05_random", "rapid: writer histories of 1..80 ops {Malloc n (filled at once), Malloc n filled lazily (in reverse order, by a later fill op or right before Flush), WriteBinary, Flush, WrittenLen} with n from {0,1,3,100,4095,4096,4097,8192,12289,40000,-1,uniform}; io.Writer sinks failing at the k-th Write (k=0..4, short counts) and bytes-backed writers over nil / empty / partially filled / full / power-of-two targets; non-trivial = a lazily filled region was live while the unflushed size crossed 4096 (growth), or calls were made after a sink failure")
 	defer rec.Flush()
-	runRapid(t, rec, "c05_writer_history", evid.Pick(4000, 15000), genWriterCase, checkWriterCase)
+	runRapid(t, rec, "c05_writer_history", evid.Pick(30000, 40000), genWriterCase, checkWriterCase)
 }
 
 func TestC05_Exhaustive(t *testing.T) {
